@@ -1,6 +1,6 @@
 use bytes::{Buf, Bytes};
 use std::future::poll_fn;
-use std::sync::atomic::{AtomicUsize, Ordering};
+use std::sync::atomic::{AtomicBool, AtomicUsize, Ordering};
 use std::sync::Mutex;
 use std::task::Waker;
 use std::{
@@ -385,6 +385,11 @@ impl WriteHalf {
             return Err(io::Error::new(io::ErrorKind::BrokenPipe, "Broken pipe"));
         }
 
+        // The peer reset the connection: no credit will ever come back.
+        if self.flow_control.is_reset() {
+            return Err(io::Error::new(io::ErrorKind::BrokenPipe, "Broken pipe"));
+        }
+
         if !self.flow_control.try_acquire() {
             return Err(io::Error::new(
                 io::ErrorKind::WouldBlock,
@@ -408,7 +413,7 @@ impl WriteHalf {
                 "Broken pipe",
             )));
         }
-        if self.flow_control.has_credits() {
+        if self.flow_control.has_credits() || self.flow_control.is_reset() {
             return Poll::Ready(Ok(()));
         }
         self.flow_control.register_waker(cx.waker().clone());
@@ -528,6 +533,12 @@ impl BidiFlowControl {
             read: self.write,
         }
     }
+
+    /// The connection was reset by the peer: fail the local writer instead of
+    /// leaving it parked on credits that will never be released.
+    pub(crate) fn reset_writer(&self) {
+        self.write.reset();
+    }
 }
 
 /// End-to-end flow control for a single TCP stream direction.
@@ -538,6 +549,7 @@ impl BidiFlowControl {
 pub(crate) struct FlowControl {
     credits: AtomicUsize,
     waker: Mutex<Option<Waker>>,
+    reset: AtomicBool,
 }
 
 impl FlowControl {
@@ -545,6 +557,7 @@ impl FlowControl {
         Self {
             credits: AtomicUsize::new(capacity),
             waker: Mutex::new(None),
+            reset: AtomicBool::new(false),
         }
     }
 
@@ -559,6 +572,17 @@ impl FlowControl {
         if let Some(waker) = self.waker.lock().unwrap().take() {
             waker.wake();
         }
+    }
+
+    fn reset(&self) {
+        self.reset.store(true, Ordering::Release);
+        if let Some(waker) = self.waker.lock().unwrap().take() {
+            waker.wake();
+        }
+    }
+
+    fn is_reset(&self) -> bool {
+        self.reset.load(Ordering::Acquire)
     }
 
     fn register_waker(&self, waker: Waker) {
